@@ -21,10 +21,12 @@ import (
 	"io"
 	"net"
 	"os"
+	"runtime"
 	"sync"
 	"time"
 
 	"tunnox-core/internal/app/server"
+	"tunnox-core/internal/cloud/models"
 	"tunnox-core/internal/cloud/repos"
 	"tunnox-core/internal/core/storage"
 	"tunnox-core/internal/core/storage/memory"
@@ -57,6 +59,12 @@ const (
 	//                         connections are dropped; l = a+1: just before, a 25 ms blacklist entry for address a was added and lapsed
 	evBlackC   = 16 // a perm  IPManager.AddToBlacklist("<ip>/32") (CIDR form), perm=1: permanent, else 1 h
 	evUnblackC = 17 // a       IPManager.RemoveFromBlacklist("<ip>/32")
+	evBanLapse  = 18 // a hold  BanIP(ip, 3 ms) and 8 ms pass: an expired ban record stays in the table (until IsBanned sees it and spawns
+	//                          the asynchronous unbanIfExpired).  hold=1: from here to evLand the process runs on one P, so that the
+	//                          goroutine spawned by the next handshake's gate check does not run before what follows (re-ban)
+	evLand      = 19 // a       the asynchronous removal lands: all Ps back, 5 ms pass
+	evSetRecord = 20 // x uid exp typ  the stored record of client x is rewritten: UserID "" / "user-<uid>"; ExpiresAt nil (0) /
+	//                          in an hour (1) / an hour ago (2); Type anonymous (0) / registered (1)
 	evCorrupt  = 14 // x kind  the stored credential (ClientConfig.SecretKeyEncrypted) of client x becomes unusable:
 	//                         0 "" (unmigrated legacy record) | 1 not base64 | 2 base64 but not decryptable |
 	//                         3 sealed under another master key | 4 base64 shorter than a nonce
@@ -138,6 +146,10 @@ type world struct {
 	// specification bookkeeping of the blacklist (never read back from the server): survives a restart
 	blackIP   map[int]bool
 	blackCidr map[int]bool
+	// a ban once seen in force (manual 1 h, or by failures 30 min / permanent) must stay until UnbanIP or a restart
+	specBan  map[int]bool
+	lostSeen map[int]bool
+	held    int // GOMAXPROCS to restore (0 = not held)
 	viol      []viol
 }
 
@@ -279,7 +291,7 @@ func (w *world) observe(o *stepObs, in *caseIn) {
 	for _, a := range in.Addrs {
 		ip := w.ip(a)
 		bi, ki := 0, 0
-		if b, _ := fx.BruteForce.IsBanned(ip); b {
+		if bannedNow(ip) {
 			bi = 1
 		}
 		if ok, _ := fx.IPManager.IsAllowed(ip); !ok {
@@ -413,9 +425,9 @@ func (w *world) msgStep(step int, op []int, o *stepObs, out *caseOut) {
 	gated := false
 	if c != nil {
 		ip := w.addrs[c.addr]
-		b, _ := fx.BruteForce.IsBanned(ip)
+		b := bannedNow(ip)
 		ok, _ := fx.IPManager.IsAllowed(ip)
-		gated = b || !ok || w.blackIP[c.addr] || w.blackCidr[c.addr]
+		gated = b || !ok || w.blackIP[c.addr] || w.blackCidr[c.addr] || w.specBan[c.addr]
 		// bind the monitor state to the ControlConnection object
 		if preSnap[k].cc != c.cc {
 			c.cc, c.proved, c.live = preSnap[k].cc, 0, ""
@@ -617,6 +629,16 @@ func (w *world) msgStep(step int, op []int, o *stepObs, out *caseOut) {
 // state predicate after every event: authenticated => proved; registry respects proofs; blacklisted => refused
 func (w *world) invariants(step int) {
 	for a, ip := range w.addrs {
+		if bannedNow(ip) {
+			w.specBan[a] = true
+		} else if w.specBan[a] && !w.lostSeen[a] {
+			// reported once; the ban stays in force for the specification, so a later Success from this address is
+			// reported as well (gate-bypassed / auth-without-proof gated=true)
+			w.v(step, "ban-lost", "address %d was banned (no UnbanIP, no restart, ban period far from over) and is not banned any more", a)
+			w.lostSeen[a] = true
+		}
+	}
+	for a, ip := range w.addrs {
 		if w.blackIP[a] || w.blackCidr[a] {
 			if ok, _ := fx.IPManager.IsAllowed(ip); ok {
 				w.v(step, "blacklist-gate-lost", "address %d is blacklisted (ip entry %v, cidr entry %v) but IPManager.IsAllowed says yes", a, w.blackIP[a], w.blackCidr[a])
@@ -663,6 +685,52 @@ func (w *world) expire(x int) {
 	cl.expired = true
 }
 
+// bannedNow reads the ban table without the side effect of IsBanned (which schedules the asynchronous removal)
+func bannedNow(ip string) bool {
+	now := time.Now()
+	for _, r := range fx.BruteForce.GetBannedIPs() {
+		if r.IP == ip && (r.ExpiresAt.IsZero() || now.Before(r.ExpiresAt)) {
+			return true
+		}
+	}
+	return false
+}
+
+func (w *world) release() {
+	if w.held > 0 {
+		runtime.GOMAXPROCS(w.held)
+		w.held = 0
+	}
+}
+
+func (w *world) setRecord(x, uid, exp, typ int) {
+	cl := w.clients[x]
+	cfg, err := cfgRepo.GetConfig(cl.id)
+	if err != nil || cfg == nil {
+		return
+	}
+	cfg.UserID = ""
+	if uid > 0 {
+		cfg.UserID = fmt.Sprintf("user-%d", uid)
+	}
+	switch exp {
+	case 0:
+		cfg.ExpiresAt = nil
+	case 1:
+		t := time.Now().Add(time.Hour)
+		cfg.ExpiresAt = &t
+	default:
+		t := time.Now().Add(-time.Hour)
+		cfg.ExpiresAt = &t
+	}
+	cfg.Type = models.ClientTypeAnonymous
+	if typ == 1 {
+		cfg.Type = models.ClientTypeRegistered
+	}
+	must(cfgRepo.UpdateConfig(cfg))
+	cl.expired = exp == 2
+}
+
 func (w *world) corrupt(x, kind int) {
 	cl := w.clients[x]
 	cfg, err := cfgRepo.GetConfig(cl.id)
@@ -700,7 +768,7 @@ func runCase(raw json.RawMessage) interface{} {
 	var in caseIn
 	must(json.Unmarshal(raw, &in))
 	caseSeq++
-	w := &world{blackIP: map[int]bool{}, blackCidr: map[int]bool{}, conns: map[int]*hconn{}, addrs: map[int]string{}, clients: []*hclient{nil}, secrets: []string{""}, chals: []string{""}}
+	w := &world{specBan: map[int]bool{}, lostSeen: map[int]bool{}, blackIP: map[int]bool{}, blackCidr: map[int]bool{}, conns: map[int]*hconn{}, addrs: map[int]string{}, clients: []*hclient{nil}, secrets: []string{""}, chals: []string{""}}
 	out := &caseOut{}
 	for i, op := range in.Ops {
 		o := stepObs{}
@@ -709,8 +777,24 @@ func runCase(raw json.RawMessage) interface{} {
 			w.msgStep(i, op, &o, out)
 		case evBan:
 			fx.BruteForce.BanIP(w.ip(op[1]), time.Hour, "verif")
+			w.specBan[op[1]] = true
 		case evUnban:
 			fx.BruteForce.UnbanIP(w.ip(op[1]))
+			w.specBan[op[1]] = false
+			w.lostSeen[op[1]] = false
+		case evBanLapse:
+			fx.BruteForce.BanIP(w.ip(op[1]), 3*time.Millisecond, "verif-short")
+			time.Sleep(8 * time.Millisecond)
+			if len(op) > 2 && op[2] == 1 && w.held == 0 {
+				w.held = runtime.GOMAXPROCS(1)
+			}
+		case evLand:
+			w.release()
+			time.Sleep(5 * time.Millisecond)
+		case evSetRecord:
+			if op[1] >= 1 && op[1] < len(w.clients) && !w.clients[op[1]].deleted {
+				w.setRecord(op[1], op[2], op[3], op[4])
+			}
 		case evBlack:
 			d := time.Hour
 			if len(op) > 2 && op[2] == 1 {
@@ -744,6 +828,8 @@ func runCase(raw json.RawMessage) interface{} {
 			fx.Close()
 			newFixture()
 			w.rateOff = false
+			w.specBan = map[int]bool{}
+			w.lostSeen = map[int]bool{}
 		case evExpire:
 			if op[1] >= 1 && op[1] < len(w.clients) && !w.clients[op[1]].deleted {
 				w.expire(op[1])
@@ -823,6 +909,7 @@ func runCase(raw json.RawMessage) interface{} {
 		ids[w.clients[i].id] = i
 	}
 	// cleanup (shared fixture)
+	w.release()
 	for _, c := range w.conns {
 		_ = fx.Session.CloseConnection(c.id)
 	}
